@@ -206,3 +206,26 @@ def parse_strace_opens(text):
         flags = args[sm.end():]
         out.append((path, flags, int(m2.group("ret"))))
     return out
+
+
+class _SubCtx:
+    def __init__(self, ctx, sub):
+        self.check, self.tier, self.strict = ctx.check, ctx.tier, ctx.strict
+        self.dir = os.path.join(ctx.dir, sub)
+        os.makedirs(self.dir)
+
+
+def retry_environmental(fn):
+    """Decorator for run_case: a harness-level hiccup of a heavily loaded machine (a helper tool killed
+    or timed out) is retried up to twice in a fresh sub-directory before the case is declared
+    inconclusive. Verdicts (Violation / Discard / OracleSplit) are never retried."""
+    def wrapper(self, case, ctx):
+        last = None
+        for attempt in range(3):
+            try:
+                return fn(self, case, _SubCtx(ctx, f"a{attempt}"))
+            except Inconclusive as e:
+                last = e
+                time.sleep(1 + attempt)
+        raise last
+    return wrapper
